@@ -96,7 +96,7 @@ Definition fit_prefix (W H : N) (frame : list line) : list line := painted frame
 (** the narrow class outside which C19's erase-exactness holds for the single bar: a println
     while not even the FIRST line of the frame fits the terminal height (then text lines are
     painted, the height `break` fires before any Bar line, the right-edge filler is skipped and
-    the next output continues on the last text row: 'text-drawn-while-no-bar-line-fits') *)
+    the next output continues on the last text row: open finding D14, oracle class 'height-cut-leaves-cursor-mid-row') *)
 Definition no_text_cut_step (W H : N) (s : sys) (x : N * op) : bool :=
   let '(s', _, _) := step W H nofail s (fst x) (snd x) in
   match snd x with
@@ -118,3 +118,19 @@ Definition NoTextCut (W H : N) (s : sys) (h : list (N * op)) : Prop := no_text_c
 
 Definition expected_rows_cut (W H : N) (pre : list (list N)) (g : ghost) : list (list N) :=
   pre ++ wrap (N.to_nat W) (g_log g) ++ wrap (N.to_nat W) (map lt (fit_prefix W H (g_frame g))).
+
+(* ------------------------------------------------------------------ running any Sys.v history (no faults) *)
+(** final state and the TermLike calls emitted by each op *)
+Fixpoint run_sys (W H : N) (s : sys) (ops : list (N * op)) : sys * list (list termop) :=
+  match ops with
+  | [] => (s, [])
+  | (now, o) :: r => let '(s', e, _) := step W H nofail s now o in
+                     let '(sf, es) := run_sys W H s' r in (sf, e :: es)
+  end.
+
+(** does a TermLike call write the character [ch]? *)
+Definition writes_char (ch : N) (o : termop) : bool :=
+  match o with
+  | TStr s | TLine s => existsb (N.eqb ch) s
+  | _ => false
+  end.
